@@ -82,6 +82,24 @@ class FilesystemIsolation(ContextDecorator):
             if p is not None:
                 self._created.discard(self._abspath(p))
 
+    def _is_foreign(self, path: object) -> bool:
+        """Check if a path exists although it was not created inside the isolation.
+
+        Such a path belongs to the real filesystem: it must neither be modified nor
+        be recorded as created (recorded paths are deleted on exit).
+        """
+        if path is None or isinstance(path, int):
+            return False
+        try:
+            abs_path = self._abspath(path)  # type: ignore[arg-type]
+            tmp_root = self._abspath(self._tmp.name)
+            if abs_path == tmp_root or abs_path.startswith(tmp_root + os.sep):
+                # the isolation's own temporary directory is removed as a whole on exit
+                return False
+            return os.path.lexists(path) and abs_path not in self._created  # type: ignore[arg-type]
+        except Exception:  # noqa: BLE001
+            return False
+
     @staticmethod
     def _is_write_mode(mode: str) -> bool:
         """Check if a mode is write mode."""
@@ -106,8 +124,13 @@ class FilesystemIsolation(ContextDecorator):
         record_arg_idx: int | None = None,
         record_dst_idx: int | None = None,
         forget_arg_idx: int | None = None,
+        overwrites: bool = False,
     ) -> Callable:
-        """Create a tracked wrapper that uses positional indices."""
+        """Create a tracked wrapper that uses positional indices.
+
+        ``overwrites`` marks callables that replace the content of the recorded path
+        (e.g. ``Path.write_text``) and hence must not run on pre-existing real paths.
+        """
 
         @functools.wraps(original_func)
         def tracked_method(*args, **kwargs):
@@ -118,11 +141,19 @@ class FilesystemIsolation(ContextDecorator):
                 if abs_forget not in self._created:
                     raise PermissionError(f"Attempted to modify non-isolated path: {abs_forget}")
 
+            rec = self._get_arg(args, kwargs, record_arg_idx)
+            dst = self._get_arg(args, kwargs, record_dst_idx)
+            if self._is_foreign(dst) or (overwrites and self._is_foreign(rec)):
+                # the call would overwrite a path of the real filesystem
+                foreign = dst if self._is_foreign(dst) else rec
+                raise PermissionError(f"Attempted to overwrite non-isolated path: {foreign}")
+            if self._is_foreign(rec):
+                # e.g. makedirs(exist_ok=True) on an existing directory creates nothing
+                rec = None
+
             res = original_func(*args, **kwargs)
 
             try:
-                rec = self._get_arg(args, kwargs, record_arg_idx)
-                dst = self._get_arg(args, kwargs, record_dst_idx)
                 self._record_created(rec, dst)
             except Exception:  # noqa: BLE001
                 _LOGGER.warning("Failed to update bookkeeping for %s", original_func)
@@ -145,6 +176,8 @@ class FilesystemIsolation(ContextDecorator):
             # second positional arg may be mode, or kwargs['mode']
             file_arg = args[0] if args else kwargs.get("file")
             mode = kwargs.get("mode", args[1] if len(args) > 1 else "r")
+            if isinstance(mode, str) and self._is_write_mode(mode) and self._is_foreign(file_arg):
+                raise PermissionError(f"Attempted to modify non-isolated path: {file_arg}")
             f = original_func(*args, **kwargs)
             if isinstance(mode, str) and self._is_write_mode(mode):
                 try:
@@ -172,6 +205,8 @@ class FilesystemIsolation(ContextDecorator):
         @functools.wraps(original_func)
         def tracked_os_open(path, flags, *args, **kwargs):
             should_record = bool(flags & write_flags)
+            if should_record and self._is_foreign(path):
+                raise PermissionError(f"Attempted to modify non-isolated path: {path}")
             fd = original_func(path, flags, *args, **kwargs)
             if should_record:
                 try:
@@ -190,6 +225,8 @@ class FilesystemIsolation(ContextDecorator):
             abs_path = self._abspath(path_self)
             if abs_path not in self._created:
                 raise PermissionError(f"Attempted to rename/replace non-isolated path: {abs_path}")
+            if self._is_foreign(target):
+                raise PermissionError(f"Attempted to overwrite non-isolated path: {target}")
             res = original_func(path_self, target)
             try:
                 self._forget(path_self)
@@ -216,8 +253,8 @@ class FilesystemIsolation(ContextDecorator):
             (shutil, "move"): {"forget_arg_idx": 0, "record_dst_idx": 1},
             (Path, "mkdir"): {"record_arg_idx": 0},
             (Path, "touch"): {"record_arg_idx": 0},
-            (Path, "write_text"): {"record_arg_idx": 0},
-            (Path, "write_bytes"): {"record_arg_idx": 0},
+            (Path, "write_text"): {"record_arg_idx": 0, "overwrites": True},
+            (Path, "write_bytes"): {"record_arg_idx": 0, "overwrites": True},
             (os, "remove"): {"forget_arg_idx": 0},
             (os, "unlink"): {"forget_arg_idx": 0},
             (os, "rmdir"): {"forget_arg_idx": 0},
